@@ -117,7 +117,17 @@ def impl_all(path, queries):
     if ld[0] == "err":
         return {"load": ld}
     st = ld[5]
-    out = {"load": ld, "summary": {}, "one": {}}
+    out = {"load": ld, "summary": {}, "one": {}, "across_values": []}
+    # the pooled value list of every metric, asked for BEFORE the summaries (queries must not change what later queries return)
+    for m in st.metricnames:
+        try:
+            want = [v for g in st.groupnames for v in list(quiet(st.get, g, m))]
+            got = list(quiet(st.get_across_groups, m))
+            again = list(quiet(st.get_across_groups, m))
+            if repr(got) != repr(want) or repr(again) != repr(want):
+                out["across_values"].append(f"get_across_groups({m!r}) returned {len(got)} then {len(again)} values, the groups hold {len(want)}")
+        except Exception as e:  # noqa
+            out["across_values"].append(f"get_across_groups({m!r}) raised {type(e).__name__}")
     for g in st.groupnames:
         for m in st.metricnames:
             try:
@@ -196,6 +206,8 @@ def check_case(case):
     groups, metrics, table = mload[2], mload[3], mload[4]
     nontrivial = False
     n_undefined = 0
+    for msg in im.get("across_values", [])[:2]:
+        vio.append("pooled value list: " + msg)
     for gi, g in enumerate(groups):
         for mi, m in enumerate(metrics):
             col = table[g][m]
